@@ -150,6 +150,11 @@ def run(ctx):
                                   (len(net.trafo3w) and ((net.trafo3w.shift_mv_degree.values != 0) | (net.trafo3w.shift_lv_degree.values != 0)).any()))
             if d and name == "init_flat" and shifted:
                 ctx.failure("init-flat-phase-shift", f"runpp({kw}): {d}", dict(case, alternative=opts))
+            elif d and name == "bfsw" and opts.get("enforce_q_lims") and len(net.gen) and bool((
+                    (np.abs(ref.res_gen.q_mvar.values - net.gen.min_q_mvar.values) < 1e-6) |
+                    (np.abs(ref.res_gen.q_mvar.values - net.gen.max_q_mvar.values) < 1e-6))[net.gen.in_service.values].any()) and \
+                    not net.gen.bus[net.gen.in_service].duplicated().any():
+                ctx.failure("bfsw-enforce-q-lims", f"runpp({kw}, enforce_q_lims=True): {d}", dict(case, alternative=opts))
             elif d and name == "bfsw" and len(net.gen) and net.gen.bus[net.gen.in_service].duplicated().any():
                 ctx.failure("bfsw-two-gens-one-bus", f"runpp({kw}): {d}", dict(case, alternative=opts))
             elif d:
